@@ -97,7 +97,24 @@ theorem run_track (cfg : Cfg) (hp : cfg.period ≠ 0) (evs : List Ev) : ∀ (s :
           simp only [hm, onInactive, closeWhenGreater, if_true] at this hopen1 ⊢
           by_cases hv : s.fails + 1 > n
           · simp [hv] at hopen1
-          · simp only [hv, if_false] at this ⊢
+          · simp only [hv, if_false, if_true, Bool.false_eq_true] at this ⊢
+            exact ⟨this.1, fun _ => this.2 (by simp)⟩
+      · simp only [hf, if_false] at this ⊢
+        exact this
+    | tickFail t =>
+      have hnd' : noDatagram es = true := by simpa [noDatagram] using hnd
+      have := ih (step cfg s (.tickFail t)).1 hnd' hopen
+      simp only [lastMsg, streak]
+      simp only [step, hs, Bool.false_eq_true, if_false, check, hp, fireStrict, if_true] at this hopen1 ⊢
+      by_cases hf : t > s.last + cfg.period
+      · simp only [hf, if_true] at this hopen1 ⊢
+        cases hm : cfg.maxRetries with
+        | none => simp [hm] at hopen1
+        | some n =>
+          simp only [hm, onInactive, closeWhenGreater, if_true] at this hopen1 ⊢
+          by_cases hv : s.fails + 1 > n
+          · simp [hv] at hopen1
+          · simp only [hv, if_false, if_true, Bool.false_eq_true] at this ⊢
             exact ⟨this.1, fun _ => this.2 (by simp)⟩
       · simp only [hf, if_false] at this ⊢
         exact this
